@@ -315,6 +315,39 @@ let dispatch mode f =
             | MInd -> Printf.sprintf "(abs:%d)" v | MIndX -> Printf.sprintf "(zp:%d,x)" v | MIndY -> Printf.sprintf "(zp:%d),y" v
             | MRel -> string_of_int ((org + 2 + (if v < 128 then v else v - 256)) land 0xFFFF) in
           Printf.sprintf "%s %s|%d" (rev ops_t mn) txt (int_of_nat len)))
+  | "mfull", (arch :: cwd :: root :: paths :: opts :: rest) ->
+    (* rest: nlex, (strhex, toks)*, nfiles, (path, toks-or-!, byteshex)* *)
+    let seg p = List.filter (fun x -> x <> "") (split '/' p) in
+    let path_of p = List.map (fun s -> List.init (String.length s) (fun i -> n_of_int (Char.code s.[i]))) (seg p) in
+    let rec take_lex k l acc = if k = 0 then (List.rev acc, l) else
+        (match l with s :: t :: r -> take_lex (k - 1) r ((unhex s, tokens_of arch t) :: acc) | _ -> failwith "lex table") in
+    let rec take_files k l acc = if k = 0 then List.rev acc else
+        (match l with p :: t :: b :: r ->
+           let fd = { fd_toks = (if t = "!" then None else Some (tokens_of arch t)); fd_bytes = unhex b } in
+           take_files (k - 1) r ((path_of p, fd) :: acc)
+         | _ -> failwith "file table") in
+    (match rest with
+     | nlex :: r ->
+       let (lex, r2) = take_lex (int_of_string nlex) r [] in
+       (match r2 with
+        | nfiles :: r3 ->
+          let files = take_files (int_of_string nfiles) r3 [] in
+          let disp tab = (fun id -> match List.find_opt (fun (_, i) -> i = id) tab with
+              | Some (sp :: _, _) -> sp | _ -> []) in
+          let (optab, regtab) = (match arch with
+              | "z80" -> (z80_op_table, z80_reg_table) | "sm83" -> (sm83_op_table, sm83_reg_table)
+              | _ -> (mos_op_table, mos_reg_table)) in
+          let budget = nat_of_int (200 + 40 * List.fold_left (fun a (_, fd) ->
+              a + (match fd.fd_toks with Some t -> List.length t | None -> 0)) 0 files) in
+          let ps = if paths = "" then [] else List.map path_of (split '|' paths) in
+          (match run_full budget (rows_of (arch_id arch)) (disp optab) (disp regtab) files lex (path_of cwd) ps
+                   (List.init (String.length root) (fun i -> n_of_int (Char.code root.[i]))) with
+           | Ok (dd, st) -> "OK\t" ^ hex_of_bytes dd ^ (if opts = "syms" then "\tSYMS\t" ^ dump_symtab st else "")
+           | Diag k -> if int_of_n k = 99 then "NEEDLEX" else Printf.sprintf "ERR\t%d" (int_of_n k)
+           | Crash CkFuel -> "FUEL"
+           | Crash _ -> "PANIC")
+        | _ -> failwith "files")
+     | _ -> failwith "lex")
   | _ -> "BADMODE"
 
 let () =
